@@ -12,6 +12,7 @@ use crate::topics::{RemoveSubscriptionError, Topic, TopicMessage, TopicName};
 use futures::future::Shared;
 use futures::FutureExt;
 use parking_lot::Mutex;
+use std::sync::atomic::{AtomicBool, Ordering};
 use std::sync::{Arc, Weak};
 use tokio::sync::{mpsc, oneshot, Notify};
 use tokio::time::Instant;
@@ -390,6 +391,8 @@ impl SubscriptionActor {
         }
 
         self.deleted = true;
+        self.observer.mark_deleting();
+        let mut also_deleting = Vec::new();
         #[cfg(deltio_verif)]
         crate::verif::emit("s.del0", |_| {
             serde_json::json!({
@@ -414,7 +417,11 @@ impl SubscriptionActor {
                     }
                     // Keep draining the mailbox (requests are no-ops now): the topic may be
                     // waiting for room in it before it can get to our request.
-                    Some(request) = receiver.recv() => self.receive_sync(request),
+                    Some(request) = receiver.recv() => match request {
+                        // Another delete of the same subscription is answered once this one is done.
+                        SubscriptionRequest::Delete { responder } => also_deleting.push(responder),
+                        request => self.receive_sync(request),
+                    },
                 }
             }
         }
@@ -430,6 +437,10 @@ impl SubscriptionActor {
         self.push_registry.set(self.info.name.clone(), None);
         #[cfg(deltio_verif)]
         crate::verif::emit("s.del1", |_| serde_json::json!({"si": self.internal_id}));
+
+        for responder in also_deleting {
+            let _ = responder.send(Ok(()));
+        }
 
         Ok(())
     }
@@ -509,6 +520,10 @@ pub(crate) struct SubscriptionObserver {
     // This shouldn't impact performance since it's only used for deletion,
     // which happens at most once per subscription.
     deleted_send: Mutex<Option<oneshot::Sender<()>>>,
+
+    /// Set as soon as the subscription starts being deleted, before it asks the topic
+    /// to drop it. Lets the topic refuse to attach a subscription that is on its way out.
+    deleting: AtomicBool,
 }
 
 impl SubscriptionObserver {
@@ -519,7 +534,18 @@ impl SubscriptionObserver {
             deleted_send: Mutex::new(Some(deleted_send)),
             deleted_recv: deleted_recv.shared(),
             notify_messages_available: Notify::new(),
+            deleting: AtomicBool::new(false),
         }
+    }
+
+    /// Marks the subscription as being deleted.
+    pub fn mark_deleting(&self) {
+        self.deleting.store(true, Ordering::Release);
+    }
+
+    /// Whether the subscription is being (or has been) deleted.
+    pub fn is_deleting(&self) -> bool {
+        self.deleting.load(Ordering::Acquire)
     }
 
     /// Notifies of new messages being available.
